@@ -126,6 +126,9 @@ func newSimple(t *testing.T, cfg Config, precancel bool) *srun {
 		}
 		r.errCh = s.Err()
 	}
+	for p := range inputs { // the options map is the caller's again once the constructor has returned
+		delete(inputs, p)
+	}
 	return r
 }
 
